@@ -14,6 +14,7 @@ let rec int_of_nat = function O -> 0 | S k -> 1 + int_of_nat k
    repetitions are only counted (EXTRA lines after the SUMMARY), so that the many executions of
    one class cannot crowd out a different mismatch in the pipeline's bounded MISMATCH list. *)
 let seen_sig : (string, int ref) Hashtbl.t = Hashtbl.create 16
+let site_count : (int, int ref) Hashtbl.t = Hashtbl.create 32   (* model access sites exercised by the compared traces *)
 let known_class = ref 0          (* executions ending in the known lost wake-up configuration *)
 let blocked_benign = ref 0       (* executions ending with the listener blocked and nothing undelivered *)
 let signature m = String.concat "" (List.map (fun c -> if c >= '0' && c <= '9' then "" else String.make 1 c) (List.init (String.length m) (String.get m)))
@@ -45,7 +46,11 @@ let mk_sys toks =
       let rec go () = match ev_step1 (nat_of_int t) !c with
         | None -> None
         | Some (c', []) -> c := c'; go ()
-        | Some (c', es) -> c := c'; Some es in go () in
+        | Some (c', es) -> c := c';
+          List.iter (function EAcc (site, _, _, _, _, _, _, _, _) ->
+            let k = int_of_n site in
+            (match Hashtbl.find_opt site_count k with Some r -> incr r | None -> Hashtbl.add site_count k (ref 1)) | _ -> ()) es;
+          Some es in go () in
     let finished t =
       let rec go cc = match ev_step1 (nat_of_int t) cc with
         | None -> let (((p, pc), _), _) = ev_local ((snd cc) (nat_of_int t)) in p = [] && pc = PIdle
@@ -136,4 +141,5 @@ let mk_sys toks =
 let () =
   run mk_sys (fun toks -> String.concat " " toks);
   Printf.printf "EXTRA known_class_executions %d\nEXTRA blocked_forever_benign %d\n" !known_class !blocked_benign;
-  Hashtbl.iter (fun sg r -> Printf.printf "EXTRA spec_signature_repeats %d\n" (!r - 1)) seen_sig
+  Hashtbl.iter (fun sg r -> Printf.printf "EXTRA spec_signature_repeats %d\n" (!r - 1)) seen_sig;
+  Hashtbl.iter (fun k r -> Printf.printf "EXTRA site_%d %d\n" k !r) site_count
